@@ -380,6 +380,8 @@ type Spec struct {
 	// ShardProcs: GOMAXPROCS of each worker process (0 = 2). The cooperative scheduler hands over between goroutines
 	// several times per microsecond-scale step and is ~4x faster on a single P.
 	ShardProcs int
+	// Post runs once in the parent process after all shards have been merged (auxiliary passes).
+	Post func(tier string, res *Result)
 	// Finish computes the level-specific coverage keys from the merged result.
 	Finish func(tier string, res *Result, cov map[string]any)
 	// MinOutcomes etc: vacuity guard; return non-empty string to end INCONCLUSIVE.
@@ -495,6 +497,9 @@ func Main(s Spec) {
 			}
 			res.merge(outs[i])
 		}
+	}
+	if s.Post != nil {
+		s.Post(tier, res)
 	}
 	os.Exit(finish(s, tier, res, start))
 }
@@ -658,6 +663,54 @@ func writeEvidence(s Spec, tier string, res *Result, start time.Time, matched ma
 	b, _ := json.MarshalIndent(e, "", " ")
 	os.MkdirAll(filepath.Join(verifRoot, "evidence"), 0o755)
 	os.WriteFile(filepath.Join(verifRoot, "evidence", s.Property+".json"), append(b, '\n'), 0o644)
+}
+
+// RacePass runs the free-running race-detector pass (go test -race on verif/racepass, untransformed library) and
+// records every report as a violation of kind "data-race". It is auxiliary evidence: sampling, never the deciding step.
+func RacePass(res *Result, runPattern string, count int) map[string]any {
+	start := time.Now()
+	cmd := exec.Command("go", "test", "-race", "-count="+strconv.Itoa(count), "-run", runPattern, "./racepass/")
+	cmd.Dir = filepath.Join(verifRoot, "engine")
+	out, err := cmd.CombinedOutput()
+	text := string(out)
+	races := strings.Count(text, "WARNING: DATA RACE")
+	info := map[string]any{"cmd": strings.Join(cmd.Args, " "), "data_race_reports": races, "wall_s": time.Since(start).Seconds(), "kind": "auxiliary (sampling; free-running goroutines, real time, untransformed sources)"}
+	switch {
+	case races > 0:
+		i := strings.Index(text, "WARNING: DATA RACE")
+		rep := text[i:]
+		if len(rep) > 6000 {
+			rep = rep[:6000]
+		}
+		site := ""
+		for _, l := range strings.Split(rep, "\n") {
+			if strings.Contains(l, "go-modbus-client") || strings.Contains(l, "/repo/") {
+				site = strings.TrimSpace(l)
+				break
+			}
+		}
+		res.Violate(Violation{Check: "race-pass", Kind: "data-race", Attrs: map[string]any{"site": site},
+			Msg: fmt.Sprintf("go test -race reported %d data race(s); first at %s", races, site), Case: map[string]any{"race_log": rep, "cmd": info["cmd"]}})
+	case err != nil && strings.Contains(text, "panic:"):
+		i := strings.Index(text, "panic:")
+		rep := text[i:]
+		if len(rep) > 3000 {
+			rep = rep[:3000]
+		}
+		res.Violate(Violation{Check: "race-pass", Kind: "panic", Attrs: map[string]any{}, Msg: "free-running pass panicked: " + strings.SplitN(rep, "\n", 2)[0], Case: map[string]any{"log": rep}})
+	case err != nil && !strings.Contains(text, "FAIL"):
+		info["error"] = fmt.Sprintf("could not run: %v: %s", err, firstLines(text, 5))
+	}
+	info["ok"] = err == nil
+	return info
+}
+
+func firstLines(s string, n int) string {
+	l := strings.Split(s, "\n")
+	if len(l) > n {
+		l = l[:n]
+	}
+	return strings.Join(l, " | ")
 }
 
 // Hex renders bytes for messages and cases.
